@@ -249,6 +249,30 @@ func main() {
 		}
 		addSeq(rng.Intn(5), ops, "random")
 	}
+	// deep stacks: 17..90 entries pushed first (more than any small-array special case), then peeks of every id
+	// region, pops and further pushes
+	for it := 0; it < nRand/4+5; it++ {
+		depth := 17 + rng.Intn(74)
+		var ops []sop
+		v := 1
+		for ; v <= depth; v++ {
+			ops = append(ops, sop{"push", v})
+		}
+		for j := 0; j < 30+rng.Intn(40); j++ {
+			switch r := rng.Intn(10); {
+			case r < 5:
+				ops = append(ops, sop{"peek", 1 + rng.Intn(v+1)})
+			case r < 7:
+				ops = append(ops, sop{"pop", 0})
+			case r < 9:
+				ops = append(ops, sop{"push", v})
+				v++
+			default:
+				ops = append(ops, sop{"values", 0})
+			}
+		}
+		addSeq(rng.Intn(5), ops, "deep")
+	}
 	// container/heap differential
 	for it := 0; it < nHeap; it++ {
 		h := &rheap{}
